@@ -1,9 +1,10 @@
 #!/bin/bash
+# (SEEDWORK=work2 for second-round deliveries in /tmp/seed/<ID>-work2)
 # usage: tools/seed_batch.sh "ID:name ID:name ..."  — confirm each seeded change and run its property's check against it; log to build/seed_batch.log
 for x in $1; do id=${x%%:*}; name=${x#*:}
   echo "=== $id $name $(date +%H:%M:%S)" >> /verif/build/seed_batch.log
   /verif/tools/confirm_seed.sh $id 2>&1 | grep -E "demo rc|tests passed|tests failed|APPLY|FAILED" >> /verif/build/seed_batch.log
-  mkdir -p /verif/seeded/$name && cp /tmp/seed/$id-work/{patch.diff,demo.c,notes.md} /verif/seeded/$name/
+  mkdir -p /verif/seeded/$name && cp /tmp/seed/$id-${SEEDWORK:-work}/{patch.diff,demo.c,notes.md} /verif/seeded/$name/
   /verif/tools/mutant.sh $id /verif/seeded/$name/patch.diff 2>&1 | tail -4 >> /verif/build/seed_batch.log
 done
 echo "BATCH DONE $(date +%H:%M:%S)" >> /verif/build/seed_batch.log
